@@ -35,7 +35,7 @@ def std_run_job(job: dict, run_case, reset_case=None) -> dict:
         if reset_case is not None:
             reset_case()
         ch = Choices(seed=seed)
-        res = run_case(ch, params)
+        res = run_case(ch, dict(params, _index=idx))
         res["index"], res["seed"] = idx, seed
         if res.get("violations") or job.get("want_choices"):
             res["choices"] = ch.record
@@ -46,7 +46,7 @@ def std_run_job(job: dict, run_case, reset_case=None) -> dict:
         if reset_case is not None:
             reset_case()
         ch = Choices(replay=job["choices"])
-        res = run_case(ch, params)
+        res = run_case(ch, dict(params, _index=job.get("index", -1)))
         res["index"], res["seed"], res["choices"] = job.get("index", -1), None, ch.record
         out = [res]  # only the replayed case is reported
     return {"cases": out}
@@ -146,7 +146,7 @@ def _norm(rec: list[int]) -> list[int]:
 
 def minimise(pool: Pool, prop, params: dict, choices: list[int], cls: str,
              budget: int, flavour: str = "default",
-             prefix: list | None = None) -> tuple[list[int], dict | None, int]:
+             prefix: list | None = None, index: int = -1) -> tuple[list[int], dict | None, int]:
     """Shrinks a failing choice list while a violation of the same class persists.
     Candidates run in fresh children; a candidate is accepted only if the choices it
     actually consumed are strictly smaller in (length, lexicographic) order, so the loop
@@ -161,7 +161,7 @@ def minimise(pool: Pool, prop, params: dict, choices: list[int], cls: str,
         if not cands:
             return False
         jobs = [{"mode": "replay", "choices": c, "params": params, "flavour": flavour,
-                 "cand": i, "cases": prefix or []} for i, c in enumerate(cands)]
+                 "cand": i, "cases": prefix or [], "index": index} for i, c in enumerate(cands)]
         used += len(jobs)
         hits = []
         for job, res in pool.run(jobs, default_cap=prop.CASE_CAP * (2 + len(prefix or []))):
@@ -339,7 +339,8 @@ def generic_main(prop, tier: str, seed: int) -> int:
             prefix, mc, mres, used = None, case["choices"], None, 0
             for cand_prefix in ([], prefix_full) if prefix_full else ([],):
                 mc, mres, used = minimise(pool, prop, params, case["choices"], v0["cls"],
-                                          min_budget if gi < 6 else 1, prefix=cand_prefix)
+                                          min_budget if gi < 6 else 1, prefix=cand_prefix,
+                                          index=case["index"])
                 if mres is not None:
                     prefix = cand_prefix
                     break
@@ -417,6 +418,7 @@ def generic_replay(prop, path: str) -> int:
         out = None
         for _, res in pool.run([{"mode": "replay", "choices": doc["choices"],
                                  "cases": doc.get("prefix_cases", []),
+                                 "index": doc.get("run", -1),
                                  "params": doc.get("params", {})}],
                                default_cap=prop.CASE_CAP * 3):
             out = res
